@@ -288,7 +288,7 @@ func C17() int {
 		"JSON) through the real parsers, twice: must return a plan or an error, must not kill the process or hang, and the two plans must be deeply equal. (b) 346 Splunk-QL queries generated from 68 command " +
 		"templates × fields {dense, sparse, absent, mixed-type, numeric-string} plus SQL queries, over a 4-event dataset in open and rotated layouts, one call each: the worker stays alive and answers " +
 		"(results or error) within 120 s; afterwards the running-query count is 0 and no goroutine whose stack lies in the query packages remains (compared by stack signature with a baseline taken before). " +
-		"(c) lifecycle under the controlled scheduler: the real query held at its k-th lock operation, for every k, while cancel / a 1 s timeout / a competing query under a running limit of 1 act; each query ends " +
+		"(c) lifecycle under the controlled scheduler: the real query held at its k-th lock operation, for every k, while cancel / a 1 s timeout / a competing query under a running limit of 1 act, and with the timeout watcher goroutine held at each of its own lock operations while another query starts; each query ends " +
 		"in exactly one way, the other query is answered correctly, the limit is never exceeded, a query cancelled while waiting never runs, tables and goroutines are clean afterwards. " +
 		"non-trivial = (b) query answered with results; (c) schedule whose hold point was reached; (a) counts parsed_ok_<lang>"
 	rep.Assume = []string{"a parser panic is recovered by the HTTP layer's Recovery middleware (the parser runs in the handler goroutine) and therefore counts as an error answer, not as a crash",
